@@ -85,7 +85,7 @@ def run(ctx):
         base = imap[cells.dag_line(d)]
         if base.startswith("err"):
             continue
-        for route in ("builder", "copy", "slice", "boc", "builder-reused", "slice-continued"):
+        for route in ("builder", "copy", "slice", "boc", "builder-reused", "slice-continued", "plain-bitarray"):
             r = core.call_impl(lambda _: _route(d, route), None)
             nroute += 1
             if r != base:
@@ -137,12 +137,20 @@ def _route(d, route):
         for r in refs:
             b.store_ref(objs[r])
         c = b.end_cell()
-        try:
-            b.store_ref(Cell.empty())
-            b.store_bits("101")
-        except Exception:
-            pass
+        for more in (lambda: b.store_bits("101"), lambda: b.store_ref(Cell.empty()), lambda: b.store_uint(5, 7)):
+            try:
+                more()
+            except Exception:
+                pass
         b.end_cell()
+    elif route == "plain-bitarray":
+        # the root built directly from a plain bitarray.bitarray (any length, byte-aligned or not)
+        from bitarray import bitarray
+        objs = cells.build_py(d)
+        ty, bits, refs = d[-1]
+        c = Cell(bitarray(bits), [objs[r] for r in refs], ty)
+        if c.bits.to01() != bits:
+            return "cell built from a plain bitarray holds other bits than it was given"
     elif route == "slice-continued":
         c0 = cells.build_py(d)[-1]
         sl = c0.begin_parse()
@@ -161,6 +169,10 @@ def _route(d, route):
             c = c0.begin_parse().to_cell()
         else:
             c = Cell.one_from_boc(c0.to_boc())
+    # the cell must still HOLD what the DAG says (a cached hash can stay right while the content drifts)
+    ty, bits, refs = d[-1]
+    if c.bits.to01() != bits or len(c.refs) != len(refs) or c.type_ != ty:
+        return f"cell content changed: {len(c.bits)} bits / {len(c.refs)} refs instead of {len(bits)} / {len(refs)}"
     return cells.info_py(c)
 
 
